@@ -568,7 +568,20 @@ def _o_pseudoprime(w):
     return False, f"CurveGroup({p}, {w['a']}, {w['b']}) accepted although {p} is composite"
 
 
-ORACLES = {"ladder.grouplaw": _o_ladder, "mult.grouplaw": _o_public_mult, "mmult.grouplaw": _o_public_mmult,
+def _o_malformed(w):
+    """a malformed curve is refused (every case other than a base-2 Fermat liar for p or n)"""
+    args = w["args"]
+    try:
+        if len(args) == 3:
+            CurveGroup(*args)
+        else:
+            Curve(args[0], args[1], args[2], (args[3], args[4]), args[5], args[6], weakness_check=bool(w.get("weak", 0)))
+    except Exception as e:  # noqa: BLE001
+        return common.err_class(e) == "value", f"{w['kind']}: raised {type(e).__name__}: {e}"
+    return False, f"curve {args} accepted although malformed ({w['kind']})"
+
+
+ORACLES = {"curve.malformed_refused": _o_malformed, "ladder.grouplaw": _o_ladder, "mult.grouplaw": _o_public_mult, "mmult.grouplaw": _o_public_mmult,
            "offcurve.refused": _o_offcurve, "recode.sod": _o_sod, "recode.wnaf": _o_wnaf, "recode.glv": _o_glv,
            "nt.inverse": _o_inv, "nt.batch": _o_invbatch, "nt.sqrt": _o_sqrt, "nt.jacobi": _o_jacobi,
            "curvegroup.composite_refused": _o_pseudoprime}
@@ -1074,6 +1087,51 @@ def _run_constructors(ctx, rng):
         ctx.check("curvegroup.composite_refused", {"p": x, "a": 1, "b": 1}, key="curvegroup.fermat_pseudoprime")
     for x in (9, 15, 21, 25, 33, 35, 49, 91):
         ctx.check("curvegroup.composite_refused", {"p": x, "a": 1, "b": 1})
+    # every other malformed-curve case must be refused, each under its own key
+    goods = []
+    for p, a, b in all_toy_params(23, 5):
+        tc = toy_curve(p, a, b)
+        for n, G in tc["subs"]:
+            h = (1 + isqrt(4 * p) + p) // n
+            try:
+                Curve(p, a, b, G, n, h, weakness_check=False)
+            except Exception:  # noqa: BLE001
+                continue
+            goods.append((p, a, b, G[0], G[1], n, h, tc))
+    goods = rng.sample(goods, min(len(goods), 25 if ctx.tier == "quick" else 200))
+    k1 = secp256k1
+    goods.append((k1.p, 0, 7, k1.G[0], k1.G[1], k1.n, 1, None))
+    for p, a, b, gx, gy, n, h, tc in goods:
+        cases = [("zero_discriminant", (p, 0, 0, gx, gy, n, h)), ("a_equals_p", (p, p, b, gx, gy, n, h)),
+                 ("a_negative", (p, -1, b, gx, gy, n, h)), ("b_equals_p", (p, a, p, gx, gy, n, h)),
+                 ("b_negative", (p, a, -2, gx, gy, n, h)), ("p_even", (p + 1, a, b, gx, gy, n, h)),
+                 ("p_two", (2, 1, 1, 1, 1, 3, 1)), ("p_composite", (p * 3, a, b, gx, gy, n, h)),
+                 ("n_even", (p, a, b, gx, gy, n + 1 if n % 2 else 4, h)), ("n_composite", (p, a, b, gx, gy, 9 * n, h)),
+                 ("generator_off_curve", (p, a, b, gx, next(y for y in range(1, 50) if (y * y - gy * gy) % p), n, h)),
+                 ("generator_y_out_of_range", (p, a, b, gx, gy + p, n, h)),
+                 ("generator_infinity", (p, a, b, gx, 0, n, h)), ("wrong_cofactor", (p, a, b, gx, gy, n, h + 1)),
+                 ("zero_cofactor", (p, a, b, gx, gy, n, 0)),
+                 ("b_changed", (p, a, (b + 1) % p, gx, gy, n, h))]
+        # a prime that is not the order of G (inside the Hasse window when one exists)
+        for q in _primes(max(3, p + 1 - isqrt(4 * p)), p + 1 + isqrt(4 * p)) if p < 1000 else [k1.n + 2 * 2**128 + 1]:
+            if q != n and q % 2 and (tc is None or tc["order"] % q):
+                cases.append(("n_not_the_order", (p, a, b, gx, gy, q, (1 + isqrt(4 * p) + p) // q)))
+                break
+        if tc is not None and tc["order"] == p == n:
+            cases.append(("n_equals_p", (p, a, b, gx, gy, n, h)))
+        for kind, args in cases:
+            if kind == "b_changed" and tc is not None and (args[3] ** 3 + a * args[3] + args[2] - args[4] ** 2) % p == 0:
+                continue
+            ctx.check("curve.malformed_refused", {"kind": kind, "args": list(args)}, key="curve.malformed." + kind)
+            ctx.count("malformed", kind)
+    for p in (5, 7, 11, 13):  # anomalous toy curves (n = p) exist for small p: they must be refused
+        for a in range(p):
+            for b in range(p):
+                if (4 * a ** 3 + 27 * b * b) % p and toy_curve(p, a, b)["order"] == p:
+                    G = toy_curve(p, a, b)["subs"][0][1]
+                    ctx.check("curve.malformed_refused", {"kind": "n_equals_p", "args": [p, a, b, G[0], G[1], p, 1]},
+                              key="curve.malformed.n_equals_p")
+                    ctx.count("malformed", "n_equals_p")
 
 
 def run(ctx):
